@@ -200,7 +200,7 @@ def corpus_cases():
 
 def run(chk):
     rng = random.Random(chk.seed)
-    common.translate_for(chk, ["opcodes", "evaluator", "codegen"])
+    common.translate_for(chk, ["codegen"])
     chk.proof = common.prove("C02")
     probe = Proc([common.build_probe("harness_c02", "c02probe")])
     model = Proc([common.build_model("asm")])
